@@ -69,7 +69,7 @@ def result_fates(prog, fn, call, allow_fns=None, _depth=0):
     return local_fates(prog, fn, dest[0], allow_fns or {}, set(), _depth)
 
 
-def local_fates(prog, fn, local, allow_fns, seen, depth):
+def local_fates(prog, fn, local, allow_fns, seen, depth, owned=True):
     if (fn.path, local) in seen or depth > 12:
         return []
     seen.add((fn.path, local))
@@ -78,6 +78,12 @@ def local_fates(prog, fn, local, allow_fns, seen, depth):
     real = [u for u in uses if u[1] != 'drop']
     if not real:
         return [Fate('discarded', detail='value is never read (let _ = / statement expression)')]
+    if owned and (fn.local_ty(local) or '').startswith('std::result::Result<'):
+        gap = unread_success_path(fn, local, real)
+        if gap is not None:
+            fates.append(Fate('discarded', detail='read on some paths only: from its definition in bb%d the value reaches '
+                                                  'the success return in bb%d without being read (dropped silently on '
+                                                  'that path)' % gap))
     err_payload_read = False
     discr_read = False
     for (bi, kind, idx, how, pl) in real:
@@ -99,7 +105,8 @@ def local_fates(prog, fn, local, allow_fns, seen, depth):
                 continue
             if rv['r'] in ('use', 'ref', 'cast', 'cfd', 'agg'):
                 if len(target) == 1:
-                    fates.extend(local_fates(prog, fn, target[0], allow_fns, seen, depth + 1))
+                    fates.extend(local_fates(prog, fn, target[0], allow_fns, seen, depth + 1,
+                                             owned=(rv['r'] == 'use' and how == 'm')))
                 else:
                     fates.append(Fate('stored', detail='stored into _%d%s' % (target[0], ''.join(target[1:]))))
                 continue
@@ -119,6 +126,43 @@ def local_fates(prog, fn, local, allow_fns, seen, depth):
     elif err_payload_read and not fates:
         fates.append(Fate('matched'))
     return fates
+
+
+def unread_success_path(fn, local, real):
+    """cut condition of the fate analysis (seed C12-4): the fates collected from the uses of an owned Result say what
+    happens to it *where it is read*; they say nothing about a path on which it is not read at all.  Returns
+    (def_bb, site_bb) if some path leads from a definition of `local` to a success site of `fn` without passing a block
+    that reads it (there the value is dropped silently), else None.  Paths that end in an error return are not
+    counted: a failure is reported on them anyway."""
+    from .effects import success_sites
+    site_bbs = {s.bb for s in success_sites(fn)}
+    if not site_bbs:
+        return None
+    use_bbs = {u[0] for u in real}
+    starts = []
+    defs = fn.whole_defs(local)
+    if not defs and 1 <= local <= fn.argc:
+        starts.append((0, 0))
+    for d in defs:
+        if d[0] == 'call':
+            to = fn.blocks[d[1]]['t'].get('to')
+            if to is not None:
+                starts.append((d[1], to))
+        elif d[0] == 'stmt':
+            bb, si = d[1], d[2]
+            later = any(u[0] == bb and (u[1] != 'stmt' or u[2] > si) for u in real)
+            if later:
+                continue
+            for sb in fn.succs(bb):
+                starts.append((bb, sb))
+    for (db, sb) in starts:
+        if sb in use_bbs:
+            continue
+        reached = fn.reachable(sb, stop=use_bbs) - use_bbs
+        hit = sorted(reached & site_bbs)
+        if hit:
+            return (db, hit[0])
+    return None
 
 
 def _arg_fate(prog, fn, c, idx, allow_fns, seen, depth):
